@@ -378,10 +378,106 @@ theorem C06_full_false_F06 : ¬ C06_full := by
     each of the two candidate entries has exactly one receiver -/
 example : ¬ NoF06 (subscribers (run (init {}) f06History).topics f06Msg.topic) := by decide
 
+/-! ## Non-vacuity
+
+`c03History` (five network clients, an inline subscriber on `a/b`, a read denial) extended with two share groups —
+`$share/g/a/#` with the two members `m1` (connection 6) and `m2` (connection 7), `$share/h/a/+` with the one member
+`m3` (connection 8, MQTT 3.1.1) — and a second inline subscriber (identifier 9, `a/#`). -/
+
+def c06History : List Op :=
+  c03History ++
+  [.connect 6 { ver := 5, id := [109, 49] },
+   .recv 6 (.subscribe 1 0 [{ filter := [36,115,104,97,114,101,47,103,47,97,47,35] }]),
+   .connect 7 { ver := 5, id := [109, 50] },
+   .recv 7 (.subscribe 1 0 [{ filter := [36,115,104,97,114,101,47,103,47,97,47,35] }]),
+   .connect 8 { ver := 4, id := [109, 51] },
+   .recv 8 (.subscribe 1 0 [{ filter := [36,115,104,97,114,101,47,104,47,97,47,43] }]),
+   .inlineSubscribe 9 [97, 47, 35]]
+
+/-- the state after the history, with the read denial `(z, a/b)` of `c03State` configured -/
+def c06State : Server := { run (init {}) c06History with aclDeny := [([122], [97, 47, 98], false)] }
+
+theorem c06State_reach : ReachSeq {} c06State :=
+  (ReachSeq.init.run c06History (by decide) (by decide)).config ⟨rfl, rfl, rfl, rfl, rfl, rfl, rfl, rfl⟩
+
+/-- the candidate entry of share group `g` -/
+def c06EntryG : Str × List (Str × Sub) :=
+  ([36,115,104,97,114,101,47,103,47,97,47,35],
+   [([109, 49], { filter := [36,115,104,97,114,101,47,103,47,97,47,35] }),
+    ([109, 50], { filter := [36,115,104,97,114,101,47,103,47,97,47,35] })])
+
+/-- two candidate entries match `a/b`: `$share/h/a/+` (one member) and `$share/g/a/#` (two members); no share name
+    has two matching filters -/
+example : (subscribers c06State.topics c03Msg.topic).shared.map (fun g => (g.1, g.2.map Prod.fst)) =
+    [([36,115,104,97,114,101,47,104,47,97,47,43], [[109, 51]]),
+     ([36,115,104,97,114,101,47,103,47,97,47,35], [[109, 49], [109, 50]])] ∧
+    NoF06 (subscribers c06State.topics c03Msg.topic) := by decide
+
+set_option maxRecDepth 4000 in
+/-- `p` publishes `a/b`, QoS 0.  Entries visited in the order `h`, `g` (`orderSeed = 0`): `pickSeed = 0` picks `m1`
+    for `g`, `pickSeed = 3` (second base-3 digit 1) picks `m2`; in the order `g`, `h` (`orderSeed = 1`):
+    `pickSeed = 0` picks `m1`, `pickSeed = 1` picks `m2`.  `m3` — the only member of `h` — always receives; so do
+    the plain subscribers `y` (connection 2) and `x` (connection 1); each connection once. -/
+example :
+    (publishToSubscribers (withSeeds c06State 0 0) c03Msg).2.filterMap pubConn = [2, 1, 8, 6] ∧
+    (publishToSubscribers (withSeeds c06State 3 0) c03Msg).2.filterMap pubConn = [2, 1, 8, 7] ∧
+    (publishToSubscribers (withSeeds c06State 0 1) c03Msg).2.filterMap pubConn = [2, 1, 6, 8] ∧
+    (publishToSubscribers (withSeeds c06State 1 1) c03Msg).2.filterMap pubConn = [2, 1, 7, 8] := by decide
+
+set_option maxRecDepth 4000 in
+/-- the two inline subscribers are reached too: six outputs -/
+example : (publishToSubscribers (withSeeds c06State 0 0) c03Msg).2.length = 6 ∧
+    Out.inline 7 [97, 47, 98] [1] ∈ (publishToSubscribers (withSeeds c06State 0 0) c03Msg).2 ∧
+    Out.inline 9 [97, 47, 98] [1] ∈ (publishToSubscribers (withSeeds c06State 0 0) c03Msg).2 := by decide
+
+set_option maxRecDepth 4000 in
+/-- the hypotheses of `C06_one_receiver_per_candidate_seq_partial` hold for the entry of group `g`: it is a
+    candidate entry, and both members can be served -/
+theorem c06_hyps : c06EntryG ∈ (subscribers c06State.topics c03Msg.topic).shared ∧
+    ∀ m ∈ c06EntryG.2, Servable c06State c03Msg m.1 := by
+  refine ⟨by decide, ?_⟩
+  intro m hm
+  have : m.1 = [109, 49] ∨ m.1 = [109, 50] := by
+    simp only [c06EntryG, List.mem_cons, List.not_mem_nil, or_false] at hm
+    rcases hm with rfl | rfl
+    · exact Or.inl rfl
+    · exact Or.inr rfl
+  rcases this with e | e <;> rw [e]
+  · exact ⟨⟨6, by decide, by decide, by decide, by decide⟩, by decide, fun e => absurd e (by decide)⟩
+  · exact ⟨⟨7, by decide, by decide, by decide, by decide⟩, by decide, fun e => absurd e (by decide)⟩
+
+/-- the theorem, instantiated: for every resolution of Go's map order exactly one of `m1`, `m2` is picked for the
+    entry of group `g` and written the message … -/
+example (pickSeed orderSeed : Nat) :
+    ExactlyOne fun c => c ∈ c06EntryG.2.map Prod.fst ∧ PickedFor (withSeeds c06State pickSeed orderSeed) c03Msg.topic c06EntryG c ∧
+      WrittenTo (withSeeds c06State pickSeed orderSeed) c03Msg c :=
+  (C06_one_receiver_per_candidate_seq_partial {} c06State c06State_reach c03Msg rfl rfl rfl c06EntryG c06_hyps.1
+    c06_hyps.2 pickSeed orderSeed).1
+
+/-- … and (`NoF06`) exactly one member of share group `g` -/
+example (pickSeed orderSeed : Nat) :
+    ExactlyOne fun c => GroupMember (subscribers c06State.topics c03Msg.topic) [103] c ∧
+      PickedForGroup (withSeeds c06State pickSeed orderSeed) c03Msg.topic [103] c ∧
+      WrittenTo (withSeeds c06State pickSeed orderSeed) c03Msg c := by
+  refine C06_one_receiver_per_group_seq_partial {} c06State c06State_reach c03Msg rfl rfl rfl (by decide) [103]
+    ⟨c06EntryG, c06_hyps.1, by decide⟩ ?_ pickSeed orderSeed
+  rintro c ⟨g, hg, hgG, hc⟩
+  have hsh : (subscribers c06State.topics c03Msg.topic).shared =
+      [([36,115,104,97,114,101,47,104,47,97,47,43], [([109, 51], { filter := [36,115,104,97,114,101,47,104,47,97,47,43] })]),
+       c06EntryG] := by decide
+  rw [hsh] at hg
+  simp only [List.mem_cons, List.not_mem_nil, or_false] at hg
+  rcases hg with rfl | rfl
+  · exact absurd hgG (by decide)
+  · obtain ⟨m, hm, rfl⟩ := List.mem_map.mp hc
+    exact c06_hyps.2 m hm
+
 end Mochi.Broker
 
 #print axioms Mochi.Broker.selectShared_exact
 #print axioms Mochi.Broker.C06_one_receiver_per_candidate_seq_partial
 #print axioms Mochi.Broker.C06_one_receiver_per_group_seq_partial
 #print axioms Mochi.Broker.C06_full_false_F06
+#print axioms Mochi.Broker.c06State_reach
+#print axioms Mochi.Broker.c06_hyps
 #print axioms Mochi.Broker.publishToSubscribers_writes_exact_shared
